@@ -356,7 +356,9 @@ Section Outer.
   Definition data_try_from (vc : vconv) (fc : fconv) (body : dbody) : res value :=
     match body with
     | DEnum vs =>
-        accumulate (map (from_variant vc) vs) (fun vals => VVariant "Enum" [("0", VList vals)])
+        (* each variant's errors are located under the variant's name, as a named field's are under its own *)
+        accumulate (map (fun ve => map_err (at_ (ve_ident ve)) (from_variant vc ve)) vs)
+                   (fun vals => VVariant "Enum" [("0", VList vals)])
     | DStruct style fs =>
         map_ok (fun v => VVariant "Struct" [("0", v)]) (fields_try_from fc style fs)
     | DUnion => Err (custom "Unions are not supported")
@@ -392,26 +394,23 @@ Section Outer.
   Definition generics_toks (g : generics) : value :=
     VStruct [("params", VToks (g_params_toks g)); ("where_clause", opt_toks (g_where g))].
 
-  (** [collect::<Result<Vec<_>>>()?]: the first failing parameter decides *)
-  Fixpoint params_mirror (tc : tpconv) (ps : list gparam) : res (list value) :=
-    match ps with
-    | [] => Ok []
-    | p :: r =>
-        let here :=
-          match p with
-          | GpType i attrs ident bounds default =>
-              map_ok (fun v => VVariant "Type" [("0", v)]) (from_type_param tc i attrs ident bounds default)
-          | GpLifetime t => Ok (VVariant "Lifetime" [("0", VToks t)])
-          | GpConst t => Ok (VVariant "Const" [("0", VToks t)])
-          end in
-        match here with
-        | Ok v => match params_mirror tc r with
-                  | Ok vs => Ok (v :: vs)
-                  | Err e => Err e
-                  | Panic m => Panic m
-                  end
-        | Err e => Err e
-        | Panic m => Panic m
+  (** every parameter is converted and every failure reported (an accumulator, as for fields and variants) *)
+  Definition param_result (tc : tpconv) (p : gparam) : res value :=
+    match p with
+    | GpType i attrs ident bounds default =>
+        map_ok (fun v => VVariant "Type" [("0", v)]) (from_type_param tc i attrs ident bounds default)
+    | GpLifetime t => Ok (VVariant "Lifetime" [("0", VToks t)])
+    | GpConst t => Ok (VVariant "Const" [("0", VToks t)])
+    end.
+
+  Definition params_mirror (tc : tpconv) (ps : list gparam) : res (list value) :=
+    let rs := map (param_result tc) ps in
+    match first_panic rs with
+    | Some m => Panic m
+    | None =>
+        match errs_of rs with
+        | [] => Ok (oks rs)
+        | es => match multiple es with POk e => Err e | PPanic m => Panic m end
         end
     end.
 
